@@ -632,8 +632,10 @@ func UploadFolderHandler(rwc io.ReadWriter, fullPath string, fileTransfer *FileT
 					return err
 				}
 
+				// A resumed file that did not arrive completely stays a partial file: it must not be published
+				// under its final name.
 				if err := receiveFile(rwc, file, io.Discard, io.Discard, fileTransfer.bytesSentCounter); err != nil {
-					rLogger.Error(err.Error())
+					return err
 				}
 
 				err = os.Rename(fullPath+"/"+fu.FormattedPath()+".incomplete", fullPath+"/"+fu.FormattedPath())
